@@ -55,6 +55,10 @@ type IdxRound struct {
 	After      int        `json:"after"`       // scheduler decisions before the round
 	HoldWorker bool       `json:"hold_worker"` // keep the index worker parked while mutators are driven to a transaction boundary
 	Queries    []IdxQuery `json:"queries"`
+	// Rebuild: RebuildIndexes is called at the start of the round, while
+	// the index worker (possibly with index updates still queued) is kept
+	// parked and no mutator is inside a transaction
+	Rebuild bool `json:"rebuild,omitempty"`
 }
 
 // IdxCase is a case of the index scenarios.
@@ -109,7 +113,7 @@ func (IndexScenario) GenCase(r *rand.Rand, prop string) interface{} {
 		c.Mutators = append(c.Mutators, muts)
 	}
 	for ri, nr := 0, 1+r.IntN(3); ri < nr; ri++ {
-		rd := IdxRound{After: r.IntN(40), HoldWorker: chance(r, 60)}
+		rd := IdxRound{After: r.IntN(40), HoldWorker: chance(r, 60), Rebuild: chance(r, 12)}
 		for i, n := 0, 1+r.IntN(4); i < n; i++ {
 			rd.Queries = append(rd.Queries, genIdxQuery(r))
 		}
@@ -278,6 +282,7 @@ type idxRun struct {
 	muts     []mutRec
 	qcs      []qcRec
 	evals    int
+	rebuilt  bool // RebuildIndexes has run (guarded by h.mu)
 }
 
 type mutRec struct {
@@ -404,6 +409,7 @@ func (IndexScenario) Execute(sim *sched.Sim, ci interface{}, prop string, race b
 		}
 		return true
 	}
+	rebuilds := 0
 	queryRound := func(rd IdxRound, ri int) {
 		// drive the mutators to a transaction boundary
 		for i := 0; i < 5000 && !allFrozen(); i++ {
@@ -426,6 +432,32 @@ func (IndexScenario) Execute(sim *sched.Sim, ci interface{}, prop string, race b
 		if !allFrozen() {
 			h.Violate("C13", "mutators-stuck", "", "mutators did not reach a transaction boundary: "+describeParked(sim))
 			return
+		}
+		if rd.Rebuild {
+			// the indexes are rebuilt from the stored values while index
+			// updates of earlier mutations may still be queued; those then
+			// run against the rebuilt index
+			var rerr error
+			rt := sim.Go("rebuild"+strconv.Itoa(ri+1), func() {
+				rerr = ir.qs.RebuildIndexes()
+				sim.Yield("call.return", "rebuild")
+			})
+			for i := 0; i < 5000 && !rt.IsDone(); i++ {
+				if !sim.Decide(func(t *sched.Task) bool { return !isMut(t) && t.Role != "tqworker" }) {
+					break
+				}
+			}
+			rebuilds++
+			h.mu.Lock()
+			ir.rebuilt = true
+			h.mu.Unlock()
+			if !rt.IsDone() {
+				h.Violate("C13", "rebuild-hang", "", "RebuildIndexes did not return while the index worker was parked: "+describeParked(sim))
+				return
+			}
+			if rerr != nil {
+				h.Violate("C13", "rebuild-error", "", fmt.Sprintf("RebuildIndexes (no transaction open, index worker parked) failed: %v", rerr))
+			}
 		}
 		// expected: exact, because the mutators stay frozen during the round
 		h.mu.Lock()
@@ -513,7 +545,7 @@ func (IndexScenario) Execute(sim *sched.Sim, ci interface{}, prop string, race b
 	for _, p := range sim.Panics {
 		h.Violate("C13", "panic", panicSignature(p), p)
 	}
-	out := &Outcome{Faults: map[string]int{"commit-error": commitErrs}, Evals: ir.evals + h.Evals}
+	out := &Outcome{Faults: map[string]int{"commit-error": commitErrs, "rebuild-with-queued-index-updates": rebuilds}, Evals: ir.evals + h.Evals}
 	nm := 0
 	for _, m := range c.Mutators {
 		nm += len(m)
@@ -562,17 +594,26 @@ func (ir *idxRun) onQueryChange(qc store.QueryChange) {
 		delete(ir.idxModel, qc.ID())
 	}
 	ir.h.mu.Unlock()
+	// after a RebuildIndexes the index may be ahead of a queued index update:
+	// it reflects the value stored now, not the one of this mutation (asked
+	// after each probe query: the rebuild may run while the probe is parked)
+	ahead := func() bool {
+		ir.h.mu.Lock()
+		defer ir.h.mu.Unlock()
+		return ir.rebuilt && !sameRec(ir.model[qc.ID()], a)
+	}
 	// the index already reflects the mutation
 	for _, idx := range []string{"k", "n"} {
 		ok, nk := idxKeyOf(idx, b), idxKeyOf(idx, a)
 		if (ok == nil) == (nk == nil) && bytes.Equal(ok, nk) {
 			continue
 		}
+
 		ir.evals++
 		if nk != nil {
 			r, err := ir.qs.Query(IdxQuery{Index: idx, Prefix: string(nk), Limit: -1}.values())
 			ids, _ := r.([]string)
-			if err != nil || !contains(ids, qc.ID()) {
+			if (err != nil || !contains(ids, qc.ID())) && !ahead() {
 				ir.h.Violate("C14", "callback-before-index", "new-key", fmt.Sprintf("inside the query-change callback for id %q, a query for its new %s key %q returns %q (err %v)", qc.ID(), idx, nk, ids, err))
 			}
 		}
@@ -580,7 +621,7 @@ func (ir *idxRun) onQueryChange(qc store.QueryChange) {
 			r, err := ir.qs.Query(IdxQuery{Index: idx, Prefix: string(ok), Limit: -1}.values())
 			ids, _ := r.([]string)
 			// the id may still match through its new key only if that key has the old one as prefix
-			if err == nil && contains(ids, qc.ID()) {
+			if err == nil && contains(ids, qc.ID()) && !ahead() {
 				ir.h.Violate("C14", "callback-before-index", "old-key", fmt.Sprintf("inside the query-change callback for id %q, a query for its old %s key %q still returns it: %q", qc.ID(), idx, ok, ids))
 			}
 		}
